@@ -418,7 +418,7 @@ func Run(r *ev.Run) {
 		}
 	}
 	r.Bounds["chains"] = len(jobs)
-	par.Run(r, par.Workers(), 20*time.Minute, func(i, n int, r *ev.Run) {
+	par.RunStrict(r, par.Workers(), 8*time.Minute, func(i, n int, r *ev.Run) {
 		for ji, j := range jobs {
 			if ji%n != i {
 				continue
